@@ -68,7 +68,7 @@ def build(a, inst, sch, *, hot=True, box=False, k=0, extra=0, base=210):
     tags = E[inst["op"]]["tags"]
     srcs = []
     mk = sch.create_hot_observable if hot else sch.create_cold_observable
-    b = base if hot else base - 200
+    b = base if hot else 2  # cold timelines start close to the subscription so that small durations interact with them
     main = mk(main_messages(a, inst, box, b, extra))
     srcs.append(("main", main))
     others, inners = [], []
@@ -76,7 +76,7 @@ def build(a, inst, sch, *, hot=True, box=False, k=0, extra=0, base=210):
         wv = [50 + x for x in a.w]
         if box:
             wv = [Box(x) for x in wv]
-        o = mk(messages(wv, a.h, a.term2, 1, base=b - 5, err=OTHER_ERR))
+        o = mk(messages(wv, a.h, a.term2, 1, base=(b - 5 if hot else 1), err=OTHER_ERR))
         others.append(o)
         srcs.append(("other", o))
     if "inner" in tags:
